@@ -247,6 +247,10 @@ def analyse(facts, entries):
             expect("set_claim(%s), set_footer" % K, seq(c1, (D.set_footer, foot)), {})
             # a successful build in between does not make the builder forget what the caller supplied
             expect("set_claim(%s), build, set_claim(%s) again" % (K, K), seq(c1, (b, kk), c2), {"dup": kq})
+        # the empty key is a key like any other for the duplicate rule (the generic builder ignores such a claim, the history still repeats it)
+        e1, e2 = (D.set_claim, D.claim("", "first_empty")), (D.set_claim, D.claim("", "second_empty"))
+        expect("set_claim('')", seq(e1), {})
+        expect("set_claim('') twice", seq(e1, e2), {"dup": "''"})
         # (acknowledged, then set_claim(exp) is refused as a duplicate by the current code - no token, nothing to state)
         for K in ("K", "iss", "sub", "aud", "nbf", "iat", "jti"):
             # the acknowledgement stands for exp alone: every other registered claim (and a custom one) can still be set once afterwards
@@ -262,7 +266,7 @@ def analyse(facts, entries):
             if r2 == "C10.R4" and e.vp[1] != "Local":
                 continue
             fs.append(Finding(r2, not probs, e.id, "build contract over call sequences" if not probs else probs[0][:90], "; ".join(sorted(set(probs)))[:700], v.file(), b["line"],
-                              "%s: over 50 call sequences from default(): duplicate -> Err(Duplicate(that key)) and nothing built, also after an acknowledgement or a further claim, on a second build and when a successful build lies between the two occurrences; "
+                              "%s: over 52 call sequences from default(): duplicate -> Err(Duplicate(that key)) and nothing built, also after an acknowledgement or a further claim, on a second build and when a successful build lies between the two occurrences; "
                               "exp removed exactly when acknowledged, before one generic build whose result is returned" % e.label))
         out[e.id] = fs, None
     # set_claim forwarding (version independent)
